@@ -896,3 +896,46 @@ Proof.
   destruct k; try congruence; try (apply num_z_to_str; exact Hz);
     destruct Hn as [Hn|Hn]; try discriminate Hn; rewrite Hn; apply num_z_to_str; exact Hz.
 Qed.
+
+(* ====================================================================================== *)
+(* 11. statements as Props/C03.v and Props/C12.v quote them                                *)
+(* ====================================================================================== *)
+Lemma padding_facts fstr o lw mw it :
+  blanks (pad1 lw it) = true /\ blanks (pad2 fstr o mw it) = true /\
+  (covers fstr o lw mw it -> (1 <= List.length (pad2 fstr o mw it))%nat).
+Proof. split; [apply blanks_pad1|]. split; [apply blanks_pad2|]. apply pad2_length. Qed.
+
+Lemma expected_item_fields fstr k c it :
+  i_orig (expected_item fstr k c it) = apply_case c (i_orig it) /\
+  i_unit (expected_item fstr k c it) = strip_brackets (i_unit it) /\
+  i_value (expected_item fstr k c it) = read_value k (i_orig it) (vstr fstr (i_value it)) /\
+  i_descr (expected_item fstr k c it) = i_descr it.
+Proof. repeat split. Qed.
+
+Lemma blank_mnemonic_line fstr k o lw mw it :
+  conf_blank fstr k o it = true -> covers fstr o lw mw it ->
+  strip (format_item fstr o lw mw it) =
+    layout_blank (i_unit it) (pad2 fstr o mw it) (rhs_text fstr o it) [32]
+                 (pad4 (tail_text fstr o it)) (tail_text fstr o it) [] /\
+  read_header_line (strip (format_item fstr o lw mw it)) (is_curves_of k) (is_param_of k)
+  = Some (mkhl [] (i_unit it) (rhs_text fstr o it) (tail_text fstr o it)).
+Proof.
+  intros Hc Hv. split.
+  - exact (strip_format_blank fstr k o lw mw it Hc).
+  - exact (blank_stripped_line_roundtrip fstr k o lw mw it Hc Hv).
+Qed.
+
+Lemma swap_on_disk fstr lw mw it :
+  is_exception V12 KWell (i_orig it) = false ->
+  sec_ord V12 (sect_table_name KWell) it = DescrValue /\
+  sec_ord V20 (sect_table_name KWell) it = ValueDescr /\
+  format_item fstr DescrValue lw mw it =
+    layout [] (i_orig it) (pad1 lw it) (i_unit it) (pad2 fstr DescrValue mw it) (i_descr it)
+           [32] [32] (vstr fstr (i_value it)) [] /\
+  format_item fstr ValueDescr lw mw it =
+    layout [] (i_orig it) (pad1 lw it) (i_unit it) (pad2 fstr ValueDescr mw it) (vstr fstr (i_value it))
+           [32] [32] (i_descr it) [].
+Proof.
+  intros Hx. destruct (well_orders_differ it Hx) as [H1 H2].
+  split; [exact H1|]. split; [exact H2|]. split; [apply format_descr_first|apply format_value_first].
+Qed.
